@@ -117,7 +117,7 @@ func must(err error) {
 
 func main() {
 	rep := kit.NewReport("C15", "exploration",
-		"every single site and every pair (thorough: triples over a reduced alphabet) of site addresses over scheme {none, http://, https://} x 20 host classes x port {none, 80, 443, 8080} x 9 tls lines (one or two tls lines per site), loaded through the real Casketfile path including the real tls parsing callback with certmagic storage pre-seeded; per-site Managed/Enabled flags compared with the statement's conjunction, redirect sites enumerated and queried with 4 URIs x 2 Host forms; distinct_nontrivial = outcome classes")
+		"every single site and every pair (thorough: triples over a reduced alphabet) of site addresses over scheme {none, http://, https://} x 20 host classes x port {none, 80, 443, 8080} x 9 tls lines (one or two tls lines per site), loaded through the real Casketfile path including the real tls parsing callback with certmagic storage pre-seeded; per-site Managed/Enabled flags compared with the statement's conjunction, redirect sites enumerated and queried with 4 URIs x 2 Host forms; several HTTPS sites of one host that differ in their path; distinct_nontrivial = outcome classes")
 	kit.Init()
 	kit.Log.Off.Store(true)
 	dir := kit.TempDir("c15")
@@ -388,5 +388,45 @@ func main() {
 		}
 	}
 	rep.Sample(map[string]interface{}{"casketfile": "example.com {\n\tstatus 204 /\n}\nhttp://example.com:8080 {\n\ttls off\n\tstatus 204 /\n}\n", "redirect_requests": []string{"GET / Host: example.com", "GET /a/b?x=1&y=2 Host: example.com:80"}})
+	// several HTTPS sites of one host that differ in their path (and none on the HTTP port): the host still gets its redirect
+	for _, paths := range [][]string{{"/app", "/api"}, {"", "/api"}, {"/app", "/api", "/x"}} {
+		for _, port := range []string{"", ":443"} {
+			var b strings.Builder
+			for i, p := range paths {
+				fmt.Fprintf(&b, "example.com%s%s {\n\theader / X-Site s%d\n\tstatus 204 /\n}\n", port, p, i)
+			}
+			cf := b.String()
+			l, err := kit.Load(cf, filepath.Join(dir, "Casketfile"))
+			rep.Eval(1)
+			if err != nil {
+				rep.Violation("C15/path-sites/load", "sites of one host that differ in their path failed to load: "+err.Error(), c15case{Casketfile: cf})
+				continue
+			}
+			n := 0
+			var redirSrv *httpserver.Server
+			for _, srv := range l.Servers {
+				_, p, _ := net.SplitHostPort(srv.Address())
+				for _, sc := range srv.VerifSites() {
+					if p == "80" && strings.EqualFold(sc.Addr.Host, "example.com") {
+						n++
+						redirSrv = srv
+					}
+				}
+			}
+			if n == 0 {
+				rep.Violation("C15/redirect-site-count/path-sites", fmt.Sprintf("%d HTTPS sites of example.com that differ in their path, none on the HTTP port: the host has no synthesised redirect site", len(paths)), c15case{cf, "example.com", "0", ">=1"})
+			} else {
+				for _, uri := range []string{"/", "/app/x?q=1", "/api", "/other"} {
+					rec, pv, _ := kit.Serve(redirSrv, kit.Get("GET", uri, "example.com"))
+					rep.Eval(1)
+					if pv != nil || rec.Status != 301 || rec.Snap.Get("Location") != "https://example.com"+uri {
+						rep.Violation("C15/wrong-redirect-target/path-sites", fmt.Sprintf("GET %s on the redirect site of example.com: status %d Location %q, want 301 https://example.com%s", uri, rec.Status, rec.Snap.Get("Location"), uri), c15case{cf, "example.com", rec.Snap.Get("Location"), "https://example.com" + uri})
+					}
+				}
+			}
+			l.Close()
+			rep.Class("path-sites-of-one-host")
+		}
+	}
 	rep.Finish()
 }
